@@ -256,6 +256,16 @@ func bedDrive(args []string) error {
 				want = append(want, bedTruncate(before))
 			}
 		}
+		if sid == 3 { // every small score (the BED range is 0..1000) and every small coordinate, five fields
+			n = 5
+			for v := 0; v <= 1100; v++ {
+				b := bedRecord(r, n)
+				b.Name, b.Chrom = "s", "c"
+				b.Score, b.ChromStart, b.ChromEnd = v, v, 2*v+1
+				write(b, true)
+			}
+			nrec = 0
+		}
 		for i := 0; i < nrec; i++ {
 			if i > 0 && r.Intn(8) == 0 {
 				file = append(file, "# a comment\t\"line\n"...)
@@ -264,6 +274,22 @@ func bedDrive(args []string) error {
 				file = append(file, '\n')
 			}
 			b := bedRecord(r, n)
+			if sid%9 == 6 && i == nrec/2 && n >= 4 { // a line of exactly a power of two bytes (one less under CRLF)
+				sizes := []int{4096, 65536, 131072}
+				if thorough() {
+					sizes = []int{4096, 8192, 32768, 65536, 131072, 262144}
+				}
+				want := sizes[(sid/9)%len(sizes)]
+				if crlf {
+					want--
+				}
+				b.Name = ""
+				tmp := &bytes.Buffer{}
+				b.Write(tmp)
+				if pad := want - (tmp.Len() - 1); pad > 0 {
+					b.Name = strings.Repeat("n", pad)
+				}
+			}
 			if sid%9 == 2 && i == nrec/2 { // a line longer than bufio's buffer / than 64 KiB
 				if n >= 4 {
 					b.Name = strings.Repeat("n\"a%me", []int{700, 6000, 12000}[(sid/9)%3])
